@@ -384,6 +384,11 @@ pub fn run(ctx: &Ctx) {
         done += 1;
     }
     ctx.extra("random_values", json!(done));
+    // history independence: the same ordinary calls before and after calls that fail or are unusual
+    {
+        let mut hrng = Rng::derive(ctx.seed, 3, 99);
+        super::disturb::probe_history_independence(ctx, "C03", &mut hrng, ctx.pick(16, 60), &super::disturb::standard_probe);
+    }
 }
 
 #[allow(dead_code)]
